@@ -21,7 +21,7 @@ def table_expr(table):
 
 
 def dec_params(table, compat=False, maxlabel=99, known=None, gen=True, alphabet=(), maxlen=0, first=None,
-               allow_empty=True, trace=False, extra="", raw=None, strict=True):
+               allow_empty=True, trace=False, extra="", raw=None, strict=True, second=None):
     """Text of a generated DecParams.tla (plain definitions: evaluated once by TLC)."""
     alphabet = list(alphabet)
     first = list(first) if first is not None else alphabet
@@ -34,6 +34,7 @@ def dec_params(table, compat=False, maxlabel=99, known=None, gen=True, alphabet=
              "MaxLen == %d" % maxlen,
              "Input == <<>>",
              "FirstSyms == %s" % tla_set(first),
+             "SecondSyms == %s" % tla_set(list(second) if second is not None else alphabet),
              "AllowEmpty == %s" % ("TRUE" if allow_empty else "FALSE"),
              "Strict == %s" % ("TRUE" if strict else "FALSE")]
     if raw:
@@ -89,7 +90,7 @@ def partitions(alphabet, nparts):
 def run_decoder_tlc(name, alphabet, table, maxlen, compat=False, maxlabel=99, emit=False,
                     invariants=(), view=False, spec="FastSpec", coverage=False, nparts=None,
                     timeout=3000, properties=(), extends="DecodeCall", emit_name="Emit",
-                    extra_defs="", heap="2g", fastjit=False, raw=None, strict=True):
+                    extra_defs="", heap="2g", fastjit=False, raw=None, strict=True, deep=False):
     """Run one configuration, partitioned over parallel single-worker TLC processes.
     Returns (list of TlcResult, vectors)."""
     nparts = nparts or min(NCPU, len(alphabet) if raw is None else len(raw[0]))
@@ -97,6 +98,16 @@ def run_decoder_tlc(name, alphabet, table, maxlen, compat=False, maxlabel=99, em
         nparts = 1
     work = scratch("dec_%s_" % name)
     parts = partitions(alphabet if raw is None else raw[0], nparts)
+    seconds = [None] * len(parts)
+    if deep and raw is None and not coverage and len(alphabet) < NCPU:
+        # few symbols, long strings: split on the first two symbols (strings of one symbol recur in several
+        # processes; they are deduplicated with the vectors)
+        k = max(1, NCPU // len(alphabet))
+        parts, seconds = [], []
+        for a in alphabet:
+            for sec in partitions(alphabet, k):
+                parts.append([a])
+                seconds.append(sec)
     jobs = []
     for pi, first in enumerate(parts):
         mod = "MC_%s_%d" % (name, pi)
@@ -105,7 +116,7 @@ def run_decoder_tlc(name, alphabet, table, maxlen, compat=False, maxlabel=99, em
         with open(os.path.join(sub, "DecParams.tla"), "w") as f:
             f.write(dec_params(table, compat=compat, maxlabel=maxlabel, alphabet=alphabet, maxlen=maxlen,
                                first=(first if raw is None else None), allow_empty=(pi == 0),
-                               known=(alphabet if raw is None else []),
+                               known=(alphabet if raw is None else []), second=seconds[pi],
                                raw=(None if raw is None else (raw[0], raw[1], first)), strict=strict))
         with open(os.path.join(sub, mod + ".tla"), "w") as f:
             f.write(mc_module(mod, extends=extends, extra_defs=extra_defs))
@@ -135,6 +146,15 @@ def run_decoder_tlc(name, alphabet, table, maxlen, compat=False, maxlabel=99, em
         tlc_ok(r, name)
         vectors.extend(r.printed)
         r.printed = []
+    if deep:
+        seen, uniq = set(), []
+        for v in vectors:
+            key = tuple(v["inp"]) if isinstance(v, dict) and "inp" in v else None
+            if key is None or len(key) > 1 or key not in seen:
+                uniq.append(v)
+                if key is not None:
+                    seen.add(key)
+        vectors = uniq
     return results, vectors
 
 
